@@ -104,6 +104,28 @@ fn push_data(d: &[u8]) -> Vec<u8> {
     v
 }
 
+/// OP_RETURN scripts are compared by payload: a one-byte payload may legitimately be encoded
+/// with a small-integer opcode (minimal push) instead of a 1-byte data push.
+pub fn canonical_null_data(script: &[u8]) -> Vec<u8> {
+    if script.first() != Some(&0x6a) {
+        return script.to_vec();
+    }
+    let rest = &script[1..];
+    let payload: Option<Vec<u8>> = match rest {
+        [op] if (0x51..=0x60).contains(op) => Some(vec![op - 0x50]),
+        [0x4f] => Some(vec![0x81]),
+        _ => parse_pushes(rest).and_then(|p| if p.len() == 1 { Some(p[0].clone()) } else { None }),
+    };
+    match payload {
+        Some(d) => {
+            let mut v = vec![0x6a];
+            v.extend_from_slice(&push_data(&d));
+            v
+        }
+        None => script.to_vec(),
+    }
+}
+
 pub fn expected_script(t: &TOut) -> Vec<u8> {
     match t {
         TOut::Pay {
@@ -230,6 +252,7 @@ pub struct Observed {
     pub outputs_decrypted: u64,
     pub ovk_recovered: u64,
     pub ovk_not_recovered: u64,
+    pub ovk_notes: Vec<String>,
     pub padding_outputs: u64,
     pub padding_decrypted_zero: u64,
     pub extra_spends: u64,
@@ -333,6 +356,7 @@ fn check_orchard_family<A: orchard::bundle::Authorization>(
     notes: &[OrchardNoteCtx],
     outs: &[ShOut],
     anchor: &orchard::Anchor,
+    skip_anchor: bool,
     want_version: orchard::note::NoteVersion,
     out: &mut Vec<Finding>,
     obs: &mut Observed,
@@ -359,7 +383,7 @@ fn check_orchard_family<A: orchard::bundle::Authorization>(
         }
     }
     obs.extra_spends += (n - notes.len().min(n)) as u64;
-    if !spends.is_empty() && b.anchor() != anchor {
+    if !spends.is_empty() && !skip_anchor && b.anchor() != anchor {
         out.push((format!("{pool}-anchor"), "bundle anchor differs from the requested anchor".into()));
     }
     if b.bundle_version().note_version() != want_version {
@@ -399,7 +423,10 @@ fn check_orchard_family<A: orchard::bundle::Authorization>(
                 Some((note, _, memo)) if note.value().inner() == q.value && memo == memo_array(&q.memo) => {
                     obs.ovk_recovered += 1
                 }
-                _ => obs.ovk_not_recovered += 1,
+                _ => {
+                    obs.ovk_not_recovered += 1;
+                    obs.ovk_notes.push(format!("{pool} change={} out-scope {:?}", q.change, q.scope));
+                }
             }
         }
     }
@@ -495,7 +522,7 @@ pub fn check_contents<A: Authorization>(
             .collect();
         let mut goto: Vec<(Vec<u8>, u64)> = vout
             .iter()
-            .map(|o| (o.script_pubkey().0.0.clone(), u64::from(o.value())))
+            .map(|o| (canonical_null_data(&o.script_pubkey().0.0), u64::from(o.value())))
             .collect();
         for o in &goto {
             t_value -= o.1 as i128;
@@ -540,7 +567,7 @@ pub fn check_contents<A: Authorization>(
             }
             obs.extra_spends += (nfs.len() - m.s_notes.len().min(nfs.len())) as u64;
             for s in b.shielded_spends() {
-                if !r.s_spend.is_empty() && s.anchor().to_repr_bytes() != m.s_anchor.to_bytes() {
+                if !r.s_spend.is_empty() && s.anchor().to_bytes() != m.s_anchor.to_bytes() {
                     out.push(("sapling-anchor".into(), "a spend's anchor differs from the requested anchor".into()));
                     break;
                 }
@@ -606,6 +633,7 @@ pub fn check_contents<A: Authorization>(
         &m.o_notes,
         &r.o_out,
         &m.o_anchor,
+        m.anchors_deferred,
         orchard::note::NoteVersion::V2,
         &mut out,
         obs,
@@ -618,6 +646,7 @@ pub fn check_contents<A: Authorization>(
         &m.i_notes,
         &r.i_out,
         &m.i_anchor,
+        m.anchors_deferred,
         orchard::note::NoteVersion::V3,
         &mut out,
         obs,
@@ -629,8 +658,27 @@ pub fn check_contents<A: Authorization>(
     obs.fee_paid = t_value + s_vb + o_vb + i_vb;
     let prescribed = fee_for(&r.fee, &obs.shape) as i128;
     if obs.fee_paid != prescribed {
+        // A specific, separately-signed class: the padding policy demands an all-dummy bundle in a
+        // pool that the explicitly proposed version cannot carry; get_fee charges for it, the
+        // emitted transaction does not contain it.
+        let lacks_i = matches!(r.version, Some(Ver::V4 | Ver::V5));
+        let lacks_o = matches!(r.version, Some(Ver::V4));
+        let class = if lacks_i
+            && r.ironwood_pad.required
+            && r.ironwood_anchor
+            && r.epoch() >= Epoch::Nu6_3
+            && inn == 0
+            && r.i_spend.is_empty()
+            && r.i_out.is_empty()
+        {
+            "fee-paid-differs-from-rule:required-ironwood-bundle-charged-but-dropped-for-version"
+        } else if lacks_o && r.orchard_pad.required && r.orchard_anchor && on == 0 && r.o_spend.is_empty() && r.o_out.is_empty() {
+            "fee-paid-differs-from-rule:required-orchard-bundle-charged-but-dropped-for-version"
+        } else {
+            "fee-paid-differs-from-rule"
+        };
         out.push((
-            "fee-paid-differs-from-rule".into(),
+            class.into(),
             format!(
                 "net value balance {} but the fee rule {:?} prescribes {} for the final shape {:?}",
                 obs.fee_paid, r.fee, prescribed, obs.shape
